@@ -10,11 +10,16 @@
 //	Add/Update/Delete(i)  active store change + PushChange (what the session manager does)
 //	BroadcastOne          one iteration of broadcastLoop's pendingChanges branch
 //	FullSync / FullSyncErr  standbyLoop step 1 (performFullSync), optionally with a transport fault
-//	Attach                standbyLoop step 2: GET /ha/sessions/stream reaches handleSessionStream
-//	Deliver               connectToStream reads the next "data:" line -> handleSSEData
-//	Detach                the stream's request context ends (handler unregisters the client)
+//	Attach                standbyLoop step 2: the real connectToStream runs on its own goroutine; its request
+//	                      (as the standby builds it) reaches the real handleSessionStream
+//	Deliver               the next SSE frame the handler wrote is let through to connectToStream's reader -> handleSSEData
+//	Detach                clean end of the stream: the standby's read ends AND the handler's request context ends
+//	DropClientSide        link flap: only the standby's side ends (it goes back to FullSync/Attach); the active's
+//	                      handler for the old stream is still running (half-open connection)
+//	EndOldHandler         the active finally tears down the handler of the half-open old stream
 //
-// Per connection the order is that of standbyLoop: FullSync -> Attach -> Deliver* -> Detach.
+// Per connection the order is that of standbyLoop: FullSync -> Attach -> Deliver* -> end of stream;
+// at most one half-open old stream generation exists at a time.
 package c13
 
 import (
@@ -23,6 +28,7 @@ import (
 	"encoding/json"
 	"errors"
 	"fmt"
+	"io"
 	"net/http"
 	"net/http/httptest"
 	"os"
@@ -36,6 +42,7 @@ import (
 	"github.com/codelaboratoryltd/bng/pkg/ha"
 	"go.uber.org/zap"
 
+	"verif/deepdump"
 	"verif/explore"
 	"verif/report"
 )
@@ -76,18 +83,28 @@ func (w *sseWriter) Write(p []byte) (int, error) {
 	return w.buf.Write(p)
 }
 
-// dataLines returns the payloads of the "data: " lines written so far, split
-// exactly as connectToStream splits them.
-func (w *sseWriter) dataLines() [][]byte {
+// frames returns the complete SSE frames ("...\n\n") written so far.
+func (w *sseWriter) frames() [][]byte {
 	w.mu.Lock()
 	defer w.mu.Unlock()
 	var out [][]byte
-	for _, line := range strings.SplitAfter(w.buf.String(), "\n") {
-		if strings.HasPrefix(line, "data: ") && strings.HasSuffix(line, "\n") {
-			out = append(out, []byte(line[6:len(line)-1]))
+	parts := strings.SplitAfter(w.buf.String(), "\n\n")
+	for _, p := range parts {
+		if strings.HasSuffix(p, "\n\n") {
+			out = append(out, []byte(p))
 		}
 	}
 	return out
+}
+
+// frameData extracts the "data: " payload of one frame exactly as connectToStream does.
+func frameData(frame []byte) []byte {
+	for _, line := range strings.SplitAfter(string(frame), "\n") {
+		if strings.HasPrefix(line, "data: ") && strings.HasSuffix(line, "\n") {
+			return []byte(line[6 : len(line)-1])
+		}
+	}
+	return nil
 }
 
 // memTransport carries the standby's requests to the active's real handlers.
@@ -95,12 +112,27 @@ type memTransport struct {
 	h        http.Handler
 	failNext bool
 	lastBody []byte // body of the last /ha/sessions reply the active served
+	onStream func(req *http.Request) (*http.Response, error)
+}
+
+// stream is one generation of the SSE connection.
+type stream struct {
+	gen        int
+	w          *sseWriter         // what the active's handler has written
+	released   int                // frames already let through to the standby
+	srvCancel  context.CancelFunc // ends the handler's request context
+	pw         *io.PipeWriter     // standby-facing side of the connection
+	opened     bool
+	clientDone bool
 }
 
 func (t *memTransport) RoundTrip(req *http.Request) (*http.Response, error) {
 	if t.failNext {
 		t.failNext = false
 		return nil, errors.New("verif: injected connection failure")
+	}
+	if req.URL.Path == "/ha/sessions/stream" && t.onStream != nil {
+		return t.onStream(req)
 	}
 	rec := httptest.NewRecorder()
 	t.h.ServeHTTP(rec, req)
@@ -125,9 +157,9 @@ type sys struct {
 	rt      *memTransport
 
 	phase     int
-	w         *sseWriter
-	cancel    context.CancelFunc
-	delivered int // data lines of the current stream already handed to the standby
+	cur       *stream // the stream the standby is reading
+	old       *stream // half-open previous generation: standby side gone, handler still registered
+	attaching *stream
 	conn      int
 
 	ver      map[string]int // active's current version per id (0 = absent)
@@ -158,12 +190,37 @@ var t0 = time.Date(2026, 1, 1, 0, 0, 0, 0, time.UTC)
 
 func sid(i int) string { return fmt.Sprintf("sess-%d", i) }
 
+// session builds the payload of session i at version ver. Payload shapes differ
+// in their OPTIONAL (omitempty) fields: odd ids are PPPoE sessions (username,
+// IPv6, ISP, S/C tags, QoS profile and rates), even ids are plain IPoE sessions
+// (gateway only); an even version is an update that CLEARS the QoS profile,
+// rates and IPv6 (PPPoE) or the gateway (IPoE) and toggles the walled garden.
 func session(i, ver int) *ha.SessionState {
-	return &ha.SessionState{
+	x := &ha.SessionState{
 		SessionID: sid(i), SubscriberID: fmt.Sprintf("sub-%d", i), MAC: fmt.Sprintf("02:00:00:00:00:%02x", i),
-		IP: fmt.Sprintf("10.0.0.%d", 10+i), VLAN: 100 + i, SessionType: "ipoe", State: "active",
+		IP: fmt.Sprintf("10.0.0.%d", 10+i), VLAN: 100 + i, State: "active",
 		CreatedAt: t0, LastActivity: t0.Add(time.Duration(ver) * time.Second), BytesIn: uint64(ver),
 	}
+	full := ver%2 == 1
+	x.WalledGarden = !full
+	if i%2 == 1 {
+		x.SessionType = "pppoe"
+		x.Username = fmt.Sprintf("user%d@isp", i)
+		x.ISPID = "isp-1"
+		x.STag, x.CTag = uint16(200+i), uint16(300+i)
+		if full {
+			x.IPv6 = fmt.Sprintf("2001:db8::%d", i)
+			x.QoSProfile = "premium"
+			x.DownloadRateBps, x.UploadRateBps = 100_000_000, 50_000_000
+			x.BytesOut = uint64(1000 + ver)
+		}
+	} else {
+		x.SessionType = "ipoe"
+		if full {
+			x.Gateway = "10.0.0.1"
+		}
+	}
+	return x
 }
 
 func newSys(c cfg) *sys {
@@ -178,6 +235,7 @@ func newSys(c cfg) *sys {
 	sc.Partner = &ha.PartnerInfo{NodeID: "bng-active", Endpoint: "active.invalid:9000"}
 	s.standby = ha.NewHASyncer(sc, s.sStore, zap.NewNop())
 	s.rt = &memTransport{h: s.active.VerifC13Handler()}
+	s.rt.onStream = s.openStream
 	s.standby.VerifC13SetTransport(s.rt)
 	if c.attached {
 		for _, op := range attachedPrefix {
@@ -194,12 +252,46 @@ func (s *sys) v(kind, site, f string, a ...any) {
 	s.viols = append(s.viols, explore.Viol{Kind: kind, Site: site, Detail: fmt.Sprintf(f, a...)})
 }
 
+// undelivered: frames the handler of the current stream has written that have not been let through yet.
 func (s *sys) undelivered() [][]byte {
-	if s.phase != phAttached {
+	if s.phase != phAttached || s.cur == nil {
 		return nil
 	}
-	l := s.w.dataLines()
-	return l[s.delivered:]
+	l := s.cur.w.frames()
+	return l[s.cur.released:]
+}
+
+// release lets one frame through to the standby's connectToStream and waits until it has been processed.
+func (s *sys) release(frame []byte) {
+	s.cur.released++
+	if _, err := s.cur.pw.Write(frame); err != nil {
+		harnessError("stream write: %v", err)
+	}
+	synctest.Wait()
+}
+
+// openStream is the transport's side of GET /ha/sessions/stream: the request the
+// standby built is handed (with a server-side context and remote address) to
+// the active's real handler on its own goroutine; the response body is a pipe
+// fed frame by frame by Deliver.
+func (s *sys) openStream(req *http.Request) (*http.Response, error) {
+	st := s.attaching
+	if st == nil {
+		return nil, errors.New("verif: unexpected stream request")
+	}
+	sctx, cancel := context.WithCancel(context.Background())
+	sreq := req.Clone(sctx)
+	// unique among the (at most two) live generations, yet not growing with the connection count
+	sreq.RemoteAddr = fmt.Sprintf("standby.invalid:%d", 40000+st.gen%2)
+	st.w = &sseWriter{hdr: http.Header{}}
+	st.srvCancel = cancel
+	pr, pw := io.Pipe()
+	st.pw = pw
+	st.opened = true
+	h, w := s.rt.h, st.w
+	go h.ServeHTTP(w, sreq)
+	return &http.Response{Status: "200 OK", StatusCode: 200, Proto: "HTTP/1.1", ProtoMajor: 1, ProtoMinor: 1,
+		Header: http.Header{"Content-Type": {"text/event-stream"}}, Body: pr, Request: req}, nil
 }
 
 func (s *sys) Ops() []string {
@@ -228,6 +320,12 @@ func (s *sys) Ops() []string {
 			ops = append(ops, "Deliver")
 		}
 		ops = append(ops, "Detach")
+		if s.old == nil {
+			ops = append(ops, "DropClientSide")
+		}
+	}
+	if s.old != nil {
+		ops = append(ops, "EndOldHandler")
 	}
 	return ops
 }
@@ -312,29 +410,34 @@ func (s *sys) Apply(op string) string {
 		obs = fmt.Sprintf("snapshot=%d", len(snap.Sessions))
 	case op == "Attach":
 		s.conn++
-		ctx, cancel := context.WithCancel(context.Background())
-		req := httptest.NewRequest("GET", "http://active.invalid:9000/ha/sessions/stream", nil).WithContext(ctx)
-		req.RemoteAddr = fmt.Sprintf("standby.invalid:%d", 40000+s.conn)
-		s.w = &sseWriter{hdr: http.Header{}}
-		s.cancel = cancel
-		s.delivered = 0
+		st := &stream{gen: s.conn}
+		s.attaching = st
+		standby := s.standby
+		go func() {
+			_ = standby.VerifC13ConnectToStream()
+			st.clientDone = true
+		}()
+		synctest.Wait()
+		s.attaching = nil
+		if !st.opened || st.clientDone || !s.standby.IsConnected() {
+			s.v("S2-apply", "connectToStream", "the standby could not establish the stream over the in-memory transport")
+			if st.opened {
+				st.pw.Close()
+				st.srvCancel()
+				synctest.Wait()
+			}
+			break
+		}
+		s.cur = st
 		s.lastSeq = 0
 		s.attachAt = len(s.msgs)
-		h := s.rt.h
-		w := s.w
-		go h.ServeHTTP(w, req)
-		synctest.Wait()
 		s.phase = phAttached
 		// The handler greets with a heartbeat before anything else; the standby
 		// reads it as soon as it is connected (it only touches statistics).
-		for _, l := range s.undelivered() {
+		if l := s.undelivered(); len(l) > 0 {
 			var m ha.SyncMessage
-			if json.Unmarshal(l, &m) != nil || m.Type != ha.SyncTypeHeartbeat {
-				break
-			}
-			s.delivered++
-			if err := s.standby.VerifC13HandleSSEData(l); err != nil {
-				s.v("S2-apply", "handleSSEData", "standby rejected the stream greeting: %v", err)
+			if json.Unmarshal(frameData(l[0]), &m) == nil && m.Type == ha.SyncTypeHeartbeat {
+				s.release(l[0])
 			}
 		}
 	case op == "Deliver":
@@ -343,12 +446,8 @@ func (s *sys) Apply(op string) string {
 			harnessError("Deliver with nothing to deliver")
 			break
 		}
-		data := l[0]
-		s.delivered++
-		if err := s.standby.VerifC13HandleSSEData(data); err != nil {
-			s.v("S2-apply", "handleSSEData", "standby rejected a message the active sent: %v", err)
-			break
-		}
+		data := frameData(l[0])
+		s.release(l[0])
 		var m ha.SyncMessage
 		if err := json.Unmarshal(data, &m); err != nil {
 			harnessError("cannot decode stream frame: %v", err)
@@ -357,10 +456,20 @@ func (s *sys) Apply(op string) string {
 		obs = string(m.Type)
 		s.afterDeliver(&m)
 	case op == "Detach":
-		s.cancel()
+		s.cur.pw.Close()
+		s.cur.srvCancel()
 		synctest.Wait()
 		s.phase = phIdle
-		s.w, s.cancel = nil, nil
+		s.cur = nil
+	case op == "DropClientSide":
+		s.cur.pw.Close()
+		synctest.Wait()
+		s.old, s.cur = s.cur, nil
+		s.phase = phIdle
+	case op == "EndOldHandler":
+		s.old.srvCancel()
+		synctest.Wait()
+		s.old = nil
 	default:
 		panic("unknown op " + op)
 	}
@@ -407,6 +516,23 @@ func canon(s ha.SessionState) string {
 	return string(b)
 }
 
+func sortedCanon(l []ha.SessionState) []string {
+	var out []string
+	for _, x := range l {
+		out = append(out, canon(x))
+	}
+	sort.Strings(out)
+	return out
+}
+
+func fnv32(s string) uint32 {
+	h := uint32(2166136261)
+	for i := 0; i < len(s); i++ {
+		h = (h ^ uint32(s[i])) * 16777619
+	}
+	return h
+}
+
 func tableOf(l []ha.SessionState) map[string]string {
 	m := map[string]string{}
 	for _, x := range l {
@@ -431,7 +557,11 @@ func diffTables(want, got map[string]string) string {
 		if !ok {
 			d = append(d, fmt.Sprintf("%s missing on standby (want %s)", id, short(w)))
 		} else if g != w {
-			d = append(d, fmt.Sprintf("%s is %s on standby, want %s", id, short(g), short(w)))
+			if short(g) == short(w) {
+				d = append(d, fmt.Sprintf("%s (%s) differs in its fields: standby %s, want %s", id, short(w), g, w))
+			} else {
+				d = append(d, fmt.Sprintf("%s is %s on standby, want %s", id, short(g), short(w)))
+			}
 		}
 	}
 	for id, g := range got {
@@ -497,6 +627,11 @@ func (s *sys) Fingerprint() string {
 	}
 	dump("A", s.aStore.GetAllSessions())
 	dump("S", s.sStore.GetAllSessions())
+	// the standby's payloads in full (a payload is not a function of the version if a decoder mixes events)
+	for _, x := range sortedCanon(s.sStore.GetAllSessions()) {
+		fmt.Fprintf(&sb, "#%08x", fnv32(x))
+	}
+	fmt.Fprintf(&sb, " old=%v conn=%v ", s.old != nil, s.standby.IsConnected())
 	var rec []ha.SessionState
 	for _, r := range s.standby.GetAllReceivedSessions() {
 		rec = append(rec, *r)
@@ -509,7 +644,7 @@ func (s *sys) Fingerprint() string {
 	sb.WriteString("] fly=[")
 	for _, l := range s.undelivered() {
 		var m ha.SyncMessage
-		json.Unmarshal(l, &m)
+		json.Unmarshal(frameData(l), &m)
 		fmt.Fprintf(&sb, "%s:%d:", m.Type, m.SequenceNum)
 		for _, x := range m.Sessions {
 			fmt.Fprintf(&sb, "%s/%d", x.SessionID, x.BytesIn)
@@ -524,6 +659,15 @@ func (s *sys) Fingerprint() string {
 		}
 	}
 	sb.WriteString("]")
+	// Internal state of both syncers that is not visible through the getters
+	// above (registered stream clients, decoder scratch space, ...). Skipped:
+	// config/client/server (constant or harness plumbing), stats (counters read
+	// only by Stats()/handleHealth, never by the oracle), backoff (only paces
+	// standbyLoop, which is replaced by explicit events).
+	skip := map[string]bool{"HASyncer.config": true, "HASyncer.client": true, "HASyncer.server": true, "HASyncer.stats": true,
+		"HASyncer.backoff": true, "HASyncer.backoffMin": true, "HASyncer.backoffMax": true}
+	sb.WriteString("|A:" + deepdump.Dump(s.active, deepdump.Options{IgnoreTimes: true, SkipFields: skip}))
+	sb.WriteString("|S:" + deepdump.Dump(s.standby, deepdump.Options{IgnoreTimes: true, SkipFields: skip}))
 	return sb.String()
 }
 
@@ -546,8 +690,14 @@ func (s *sys) Check() []explore.Viol {
 		}
 	}
 	// teardown: every goroutine of the bubble must exit
-	if s.cancel != nil {
-		s.cancel()
+	if s.phase == phAttached && !s.standby.IsConnected() {
+		harnessError("model says attached but the standby reports IsConnected()=false")
+	}
+	for _, st := range []*stream{s.cur, s.old} {
+		if st != nil {
+			st.pw.Close()
+			st.srvCancel()
+		}
 	}
 	s.active.Stop()
 	s.standby.Stop()
@@ -581,7 +731,8 @@ func models(t *testing.T, run *report.Run) []*explore.Model {
 		ids, depth, nd = 4, 7, 4
 	}
 	var ms []*explore.Model
-	for _, c := range []cfg{{ids: ids}, {ids: ids, attached: true}} {
+	// the attached start state is there for depth, not breadth: one id fewer
+	for _, c := range []cfg{{ids: ids}, {ids: ids - 1, attached: true}} {
 		c := c
 		ms = append(ms, &explore.Model{
 			Name: "ha.HASyncer-pair", Config: fmt.Sprintf("ids=%d attached=%v", c.ids, c.attached),
@@ -598,7 +749,8 @@ func TestCheck(t *testing.T) {
 	run.Rule = "BFS over active Add/Update/Delete+PushChange, BroadcastOne, FullSync(+fault), Attach, Deliver, Detach on a real active/standby HASyncer pair joined in memory; S1 after every completed full sync, S2 on every delivery, S3 in every quiescent attached state"
 	run.Assumptions = []string{
 		"the session manager updates the active's store and then calls PushChange (one atomic step in the model)",
-		"standbyLoop / connectToStream's read loop / broadcastLoop are replaced by explicit single-step events calling the same functions; handleGetSessions and handleSessionStream are the real handlers",
+		"standbyLoop and broadcastLoop are replaced by explicit single-step events calling the same functions; performFullSync, connectToStream (own goroutine, frames gated by the harness), handleGetSessions and handleSessionStream are the real code",
+		"at most one half-open old stream generation at a time",
 		"session tables are compared as JSON-canonical SessionState values",
 	}
 	ms := models(t, run)
